@@ -394,12 +394,54 @@ func runReaders2(r *runner, work *choice.Source) (fs []Finding) {
 	if work.Chance(1, 3) {
 		w.mesh.VertexSlice()
 	}
+	// the shared mesh need not be a clean outline: hubs where 3..7 segments start at
+	// one point, duplicates, and segments removed again after the index was built
+	// (index slices with spare capacity); colliders and fields keep the outline
+	hubs := 0
+	if work.Chance(1, 2) {
+		hubs = 1 + work.Intn(3)
+		for h := 0; h < hubs; h++ {
+			hub := w.verts[work.Intn(len(w.verts))]
+			n := 1 + work.Intn(6)
+			for i := 0; i < n; i++ {
+				sgm := &model2d.Segment{hub, model2d.XY(3*work.Float()-1.5, 3*work.Float()-1.5)}
+				if work.Chance(1, 4) {
+					sgm[1] = w.verts[work.Intn(len(w.verts))]
+				}
+				w.mesh.Add(sgm)
+				w.segs = append(w.segs, sgm)
+			}
+		}
+		if work.Chance(1, 2) {
+			w.mesh.VertexSlice()
+			for i := 0; i < 1+work.Intn(3) && len(w.segs) > 3; i++ {
+				j := work.Intn(len(w.segs))
+				w.mesh.Remove(w.segs[j])
+				w.segs = append(w.segs[:j:j], w.segs[j+1:]...)
+			}
+		}
+		seen = map[model2d.Coord]bool{}
+		w.verts = w.verts[:0]
+		for _, sg := range w.segs {
+			for _, v := range sg {
+				if !seen[v] {
+					seen[v] = true
+					w.verts = append(w.verts, v)
+				}
+			}
+		}
+	}
 	k := 2 + work.Intn(7)
 	plans := make([][]op, k)
 	for i := range plans {
 		n := 2 + work.Intn(8)
 		for j := 0; j < n; j++ {
 			o := op{Code: work.Intn(12), I: work.Intn(1000), J: work.Intn(1000), R: 0.05 + work.Float()}
+			if hubs > 0 && work.Chance(1, 2) {
+				// queries about the most recently added (hub) segments
+				o.Code = []int{6, 6, 0}[work.Intn(3)]
+				o.I = len(w.segs) - 1 - work.Intn(min(len(w.segs), 8))
+			}
 			o.P = model3d.XYZ(3*work.Float()-1.5, 3*work.Float()-1.5, 0)
 			o.Q = model3d.XYZ(3*work.Float()-1.5, 3*work.Float()-1.5, 0)
 			plans[i] = append(plans[i], o)
@@ -407,7 +449,7 @@ func runReaders2(r *runner, work *choice.Source) (fs []Finding) {
 	}
 	workers := 1 + work.Intn(8)
 	r.st.Workers = workers
-	r.st.Desc = fmt.Sprintf("readers2 segments=%d readers=%d", len(w.segs), k)
+	r.st.Desc = fmt.Sprintf("readers2 segments=%d hubs=%d readers=%d", len(w.segs), hubs, k)
 	answers := make([][]string, k)
 	if f := r.simN(workers, work.Intn(4), nil, func() {
 		var wg sync.WaitGroup
